@@ -104,6 +104,7 @@ fn alphabet(n: usize, tier: Tier) -> Vec<Dev> {
         s.variants[0].kind = Kind::Named(vec![NamedField { name: "t".into(), ty: FieldTy::T, default_with: false }]);
         true
     }));
+    d.extend(crate::devs::rich_generic_devs(true));
     for v in ["pub(crate)", "pub(super)"] {
         d.push(dev(format!("enum vis {}", v), &["evis"], move |s| {
             s.vis = v.to_string();
